@@ -425,6 +425,18 @@ class Interp:
             outs.append((s2, None))
         return {'fall': outs}
 
+    def st_ClassDef(self, n, s):
+        # a class defined inside a function: indexed like a module-level class, bound to its name
+        if self.model is None or self.scope is None:
+            s.env[n.name] = TOP
+            return {'fall': [(s, None)]}
+        cache = self.model.__dict__.setdefault('_local_classes', {})
+        key = (self.scope.module.name, n.lineno, n.name)
+        if key not in cache:
+            cache[key] = self.model._index_class(self.scope.module, n, '%s.<locals>.%s' % (getattr(self.scope, 'qualname', '?'), n.name), None)
+        s.env[n.name] = cache[key]
+        return {'fall': [(s, None)]}
+
     def st_Assert(self, n, s):
         return {'fall': [(s, None)]}
 
@@ -620,6 +632,12 @@ class Interp:
                     stored = True
                 except TypeError:
                     pass
+            elif isinstance(base, Obj) and isinstance(base.attrs.get('__dict'), dict) and idx is not None and is_concrete(idx):
+                try:
+                    base.attrs['__dict'][idx] = v
+                    stored = True
+                except TypeError:
+                    pass
             elif isinstance(base, (list, dict)) and idx is not None and is_concrete(idx):
                 try:
                     base[idx] = v
@@ -634,6 +652,8 @@ class Interp:
                 del s.assumed[k]
             if not stored and is_concrete(idx) and idx is not None:
                 s.env[txt] = v
+            elif not stored and self.heap and (isinstance(base, (list, dict)) or (isinstance(base, Obj) and ('__dict' in base.attrs or '__items' in base.attrs))):
+                self.imprecise.append('%s[...] = ... with a key that is not determined: the store is lost (line %s)' % (_text(t.value), getattr(node, 'lineno', '?')))
         else:
             raise AnalysisError('assignment target %s not modelled' % type(t).__name__)
 
@@ -1010,6 +1030,8 @@ class Interp:
                 if isinstance(r, (list, tuple)):
                     return list(r)
             return TOP
+        if isinstance(v, Obj) and isinstance(v.attrs.get('__dict'), dict):
+            return list(v.attrs['__dict'].keys())
         return v
 
     def _call_args(self, call, s):
@@ -1070,6 +1092,19 @@ class Interp:
                 recv = b
             self._receiver = recv
             return forced.node, True, forced
+        if isinstance(f, ast.Attribute) and isinstance(f.value, ast.Call) and isinstance(f.value.func, ast.Name) and f.value.func.id == 'super' \
+           and not f.value.args and self.model is not None and isinstance(getattr(fn, 'cls', None), M.ClassInfo):
+            # super().method(...): the next definition after the current function's class in the receiver's MRO
+            me = s.env.get('self')
+            start = me.cls if isinstance(me, Obj) and isinstance(me.cls, M.ClassInfo) else fn.cls
+            mro = [k for k in self.model.mro(start)]
+            if fn.cls in mro:
+                for k in mro[mro.index(fn.cls) + 1:]:
+                    if isinstance(k, M.ClassInfo) and f.attr in k.methods:
+                        if isinstance(me, Obj):
+                            self._receiver = me
+                        return k.methods[f.attr].node, True, k.methods[f.attr]
+            return None
         if isinstance(f, ast.Name):
             cur = s.env.get(f.id)
             if isinstance(cur, Sym) and cur.label.startswith('func:') and isinstance(cur.attrs.get('node'), ast.FunctionDef):
@@ -1375,6 +1410,8 @@ class Interp:
             if isinstance(items, list):
                 return len(items) > 0
             return None
+        if isinstance(v, Obj) and isinstance(v.attrs.get('__dict'), dict):
+            return bool(v.attrs['__dict'])
         return self.truth(v)
 
     def truth(self, v):
@@ -1576,6 +1613,9 @@ class Interp:
         if isinstance(base, Obj):
             if attr in base.attrs:
                 return base.attrs[attr]
+            if isinstance(base.attrs.get('__dict'), dict) and attr in ('keys', 'values', 'items', 'get', 'update', 'clear', 'pop', 'setdefault', 'copy') \
+               and (m is None or not isinstance(base.cls, M.ClassInfo) or m.find_method(base.cls, attr) is None):
+                return ('boundmethod', base.attrs['__dict'], attr)
             if isinstance(base.cls, M.ClassInfo) and m is not None:
                 v = m.class_const(base.cls, attr)
                 if M.is_unknown(v):
@@ -1657,6 +1697,8 @@ class Interp:
                 return TOP
             self._maythrow += 1
             return TOP
+        if isinstance(base, Obj) and isinstance(base.attrs.get('__dict'), dict):
+            base = base.attrs['__dict']          # an instance of a dict subclass without its own __getitem__
         if isinstance(base, (list, tuple, str, dict)) and is_concrete(idx) and not isinstance(base, M._StringLetters):
             try:
                 return base[idx]
@@ -1862,6 +1904,38 @@ class Interp:
 
     def ev_BinOp(self, n, s):
         a, b = self.ev(n.left, s), self.ev(n.right, s)
+        if isinstance(n.op, ast.Mod) and isinstance(a, str) and not isinstance(a, M._StringLetters) and isinstance(b, Obj) and self.heap:
+            # '...%(name)s...' % mapping-object: each reference is looked up through the object's own __getitem__
+            out, pos, ok = [], 0, True
+            for mo in _re_mod.finditer(r'%(?:%|\(([^)]*)\)([sdr])|(.))', a):
+                out.append(a[pos:mo.start()])
+                pos = mo.end()
+                if mo.group(0) == '%%':
+                    out.append('%')
+                elif mo.group(1) is not None:
+                    sub = ast.Subscript(value=n.right, slice=ast.Constant(value=mo.group(1)), ctx=ast.Load())
+                    for x in ast.walk(sub):
+                        if not hasattr(x, 'lineno'):
+                            x.lineno, x.col_offset, x.end_lineno, x.end_col_offset = n.lineno, 0, n.lineno, 0
+                    v = self.ev(sub, s)
+                    if s.env.get('__exc'):
+                        return TOP
+                    if not _plain(v) and not isinstance(v, TextObj):
+                        ok = False
+                        break
+                    out.append(('%' + mo.group(2)) % (v,))
+                else:
+                    if self.precise_exc:
+                        s.env['__exc'] = 'TypeError'       # a positional conversion with a mapping on the right
+                    return TOP
+            if ok:
+                out.append(a[pos:])
+                if '%' in a[pos:]:
+                    if self.precise_exc:
+                        s.env['__exc'] = 'ValueError'      # incomplete format
+                    return TOP
+                return ''.join(out)
+            return TOP
         if is_concrete(a) and is_concrete(b) and not isinstance(a, M._StringLetters) and not isinstance(b, M._StringLetters):
             try:
                 if isinstance(n.op, ast.Mod) and isinstance(a, str):
@@ -1930,6 +2004,9 @@ class Interp:
                 if other is TOP or isinstance(other, Sym) and other.truthy is None:
                     return None
                 return not isinstance(op, ast.Is)
+            sa_, sb_ = (isinstance(x, Sym) and x.label.startswith('sentinel@') for x in (a, b))
+            if (sa_ and not sb_ and b is not TOP and not isinstance(b, Sym)) or (sb_ and not sa_ and a is not TOP and not isinstance(a, Sym)):
+                return isinstance(op, ast.IsNot)         # a module-level `object()` marker is identical to nothing else
             if isinstance(a, (bool, M.ClassInfo, type)) and isinstance(b, (bool, M.ClassInfo, type)):
                 return (a is b) == isinstance(op, ast.Is)       # (type objects: builtin types and the checkers' stand-in classes)
             if isinstance(a, (list, dict)) and isinstance(b, (list, dict)):
@@ -1952,6 +2029,8 @@ class Interp:
                     r = a.attrs['letter']
                     return r if isinstance(op, ast.In) else (None if r is None else not r)
                 return None
+            if isinstance(b, Obj) and isinstance(b.attrs.get('__dict'), dict):
+                b = b.attrs['__dict']
             if isinstance(b, (list, tuple, set, frozenset, dict, str)) and is_concrete(a):
                 if all(is_concrete(x) for x in (b if not isinstance(b, dict) else b.keys())):
                     try:
@@ -2017,6 +2096,24 @@ class Interp:
             res = self._inline_single(n, s)
             if res is not None:
                 return res[0]
+        if fname == 'isinstance' and 'isinstance' not in s.env and len(args) == 2 and isinstance(args[1], M.External) \
+           and args[1].name.split('.')[-1] in _ABCS and _plain(args[0]) and not isinstance(args[0], (TextObj, TokStr, M._StringLetters)):
+            return isinstance(args[0], _ABCS[args[1].name.split('.')[-1]])
+        if fname == 'isinstance' and 'isinstance' not in s.env and len(args) == 2 and self.model is not None:
+            ks = list(args[1]) if isinstance(args[1], tuple) else [args[1]]
+            if ks and all(isinstance(k, (M.ClassInfo, type)) for k in ks) and any(isinstance(k, M.ClassInfo) for k in ks):
+                o = args[0]
+                if isinstance(o, Obj) and isinstance(o.cls, M.ClassInfo):
+                    mro = self.model.mro(o.cls)
+                    if any(isinstance(k, M.ClassInfo) and k in mro for k in ks) or object in ks:
+                        return True
+                    if all(isinstance(k, M.ClassInfo) or k in (str, int, float, bool, list, tuple, bytes) for k in ks) \
+                       and not (isinstance(o.attrs.get('__dict'), dict) and dict in ks):
+                        return False
+                elif _plain(o) and not isinstance(o, (TextObj, TokStr)):
+                    # a Python constant is an instance of none of the repository's classes
+                    pyks = tuple(k for k in ks if isinstance(k, type))
+                    return isinstance(o, pyks) if pyks else False
         if fname == 'isinstance' and 'isinstance' not in s.env and len(args) == 2 and _plain(args[0]) \
            and (isinstance(args[1], type) or (isinstance(args[1], tuple) and args[1] and all(isinstance(t, type) for t in args[1]))):
             return isinstance(args[0], args[1])
@@ -2067,6 +2164,8 @@ class Interp:
                 if self.precise_exc:
                     s.env['__exc'] = 'AttributeError'
                 return TOP
+        if fname == 'type' and 'type' not in s.env and len(args) == 1 and not kwargs and _plain(args[0]) and not isinstance(args[0], (TextObj, TokStr, M._StringLetters)):
+            return type(args[0])
         if fname == 'hasattr' and 'hasattr' not in s.env and len(args) == 2 and isinstance(args[1], str) and _plain(args[1]) and _plain(args[0]) \
            and not isinstance(args[0], (TextObj, TokStr)):
             return hasattr(args[0], args[1])        # a Python constant (str, number, list, dict, None)
@@ -2178,11 +2277,23 @@ class Interp:
                     return f(*args)
                 except Exception:
                     return TOP
+        if isinstance(fval, type) and fval in (int, float, str, bool, list, dict, tuple) and all(_plain(a) for a in args) and not kwargs \
+           and not any(isinstance(a, M._StringLetters) for a in args):
+            # a builtin type held in a variable (type(self.value)(text))
+            try:
+                return fval(*args)
+            except Exception as e:
+                if self.precise_exc:
+                    s.env['__exc'] = type(e).__name__
+                return TOP
         # model classes -> instances
         if isinstance(fval, M.ClassInfo):
             if self.heap:
                 is_list = any(isinstance(k, M.External) and k.name in ('list', 'builtins.list') for k in self.model.mro(fval)) if self.model is not None else False
                 o = ListObj(fval, '%s@%d' % (fval.name, n.lineno)) if is_list else Obj('%s@%d' % (fval.name, n.lineno), {'__args': tuple(args)}, cls=fval)
+                if isinstance(o, Obj) and self.model is not None and any(isinstance(k, M.External) and k.name.split('.')[-1] in ('dict', 'Dict', 'OrderedDict', 'defaultdict')
+                                                                         for k in self.model.mro(fval)):
+                    o.attrs['__dict'] = {}
                 init = self.model.find_method(fval, '__init__') if self.model is not None else None
                 if init is not None and self.run_init and self.inline_depth > 0 and len(self._inline_stack) < self.inline_depth:
                     key = '__obj@%d' % len(self._inline_stack)
@@ -2284,9 +2395,9 @@ class Interp:
                     return TOP
             return TOP
         if isinstance(recv, str):
-            if all(is_concrete(a) for a in args) and not kwargs:
+            if all(is_concrete(a) for a in args) and all(_plain(v) for v in kwargs.values()):
                 try:
-                    return getattr(recv, meth)(*args)
+                    return getattr(recv, meth)(*args, **kwargs)
                 except Exception:
                     return TOP
             return TOP
@@ -2363,6 +2474,9 @@ _NOTHROW_CALLS = {'isinstance', 'issubclass', 'type', 'id', 'len', 'repr', 'str'
 
 import re as _re_mod
 import string as _string_mod
+import collections.abc as _abc
+_ABCS = {'Sequence': _abc.Sequence, 'Mapping': _abc.Mapping, 'Iterable': _abc.Iterable, 'MutableSequence': _abc.MutableSequence,
+         'MutableMapping': _abc.MutableMapping, 'Set': _abc.Set, 'Sized': _abc.Sized, 'Hashable': _abc.Hashable, 'Callable': _abc.Callable}
 _REAL_TYPES = (_re_mod.Pattern, _string_mod.Template, _re_mod.Match)
 
 
